@@ -6,7 +6,7 @@ from vlib import common as C
 pid = sys.argv[1]; seed = sys.argv[2] if len(sys.argv) > 2 else "1"; var = sys.argv[3] if len(sys.argv) > 3 else "san"
 P = importlib.import_module("vlib.props." + pid)
 th, vd = C.build_variants([var])
-exe = C.compile_harness(th, var, vd[var], [os.path.join(C.VERIF, "harness/exec_real.c")], "exec_real")
+exe = C.compile_harness(th, var, vd[var], [os.path.join(C.VERIF, "harness/exec_real.c")], "exec_real", extra=getattr(P, "HARNESS_FLAGS", ""))
 rng = C.rng_for(seed, pid)
 ops = P.gen_ops(rng, "quick")
 allops = []; allres = []
